@@ -462,6 +462,17 @@ impl UdpProxy {
         self.listeners.retain(|token, l| {
             if l.borrow().address == address {
                 removed_tokens.push(*token);
+                // The listener session (kept alive by the server's slab) holds its own
+                // `Rc` of this listener and of the manager: dropping the map entries is
+                // not enough to stop it. Take the socket out and deregister it so the
+                // removed listener stops ingesting datagrams (`ingest_client` returns
+                // when `socket` is `None`).
+                let mut owned = l.borrow_mut();
+                if let Some(mut sock) = owned.socket.take() {
+                    let _ = self.registry.deregister(&mut sock);
+                }
+                owned.active = false;
+                drop(owned);
                 false
             } else {
                 true
